@@ -113,7 +113,13 @@ def check_C02(chk):
 def check_C03(chk):
     _wire_check(chk, "C03", "Same vectors plus vectors outside the wire domain (element counts around the protocol maximum and around what fits "
                 "a frame in either size mode up to 255, nibble 16, durations beyond the field): whenever the encoder returns Ok the frame must "
-                "be one well-formed frame equal to SpecEncode; where the specification says `refused` it must fail; a decoded packet must re-encode.")
+                "be one well-formed frame equal to SpecEncode; where the specification says `refused` it must fail; a decoded packet must re-encode. "
+                "In addition every text-bearing packet is encoded in both size modes with ASCII / Latin-1 / Cyrillic / double-byte / mixed texts of "
+                "every encoded length 0..N+2 (thorough 0..2N): Trace_Text.TFrame requires one well-formed frame that decodes whole as the same kind.")
+    tp = os.path.join(WORK, "c03_fields.ndjson")
+    out = harness(["text-fields", "--out", tp, "--tier", chk.tier])
+    chk.extra["text_frames"] = json.loads(out.strip().splitlines()[-1])
+    text_trace_validate(chk, "c03_fields", tp, "frame of a text-bearing packet", only={"Frame", "Panic"})
 
 
 def check_C04(chk):
@@ -396,6 +402,8 @@ def text_event_key(ev):
         return f"Field:{ev.get('kind')}.{ev.get('name')}:{ev.get('rule')}:{ev.get('flavour')}:len{rel}:mod{le % 4}"
     if t == "FieldDec":
         return f"FieldDec:{ev.get('kind')}.{ev.get('name')}"
+    if t == "Frame":
+        return f"Frame:{ev.get('kind')}.{ev.get('name')}:{ev.get('mode')}:{ev.get('flavour')}:{ev.get('res')}:mod{ev.get('enclen', 0) % 4}"
     if t == "MsoDec":
         return f"MsoDec:name={_sig(ev.get('name'))}:text={_sig(ev.get('whole', [])[len(ev.get('name', [])):])}:{ev.get('res')}:{ev.get('re_res')}"
     if t == "CpDec":
